@@ -35,7 +35,7 @@ TOL = 1e-5
 def plan(tier):
     if tier == "quick":
         return dict(shards=16, examples=128, time_budget_s=700, min_nontrivial=20, shrink_cap_s=120)
-    return dict(shards=16, examples=1600, time_budget_s=3400, min_nontrivial=300)
+    return dict(shards=16, examples=1600, time_budget_s=3400, min_nontrivial=120)
 
 
 def strategy(tier, shard):
